@@ -24,14 +24,15 @@ _ALL_HEUR = _ALL_THREAT + ["FuncsHeur.lean"]
 # Sixth round (work package "gen6"): FuncsMoveIter (moveGenerator.Reset / Next of ai/moves.go) imports the files up to FuncsAI and FuncsSearch.
 # Seventh round (work package "gen7", task 2): FuncsZw (zwSearch itself, executed only - no bridge theorem; gen/zw.go) imports the files up to
 # FuncsAI, FuncsSearch and FuncsMoveIter; its `fn.zwsearch` op (generator FNZW) runs the regenerated definition against the real function.
-_SEARCH = ["FuncsTak.lean", "FuncsMove.lean", "FuncsAI.lean", "FuncsSearch.lean", "FuncsMoveIter.lean", "FuncsZw.lean"]
+# Task 3: FuncsSort (moveGenerator.sortMoves with sort.Sort as a permutation oracle; gen/zwsort.go), op `fn.sortmoves`, generator FNSORT.
+_SEARCH = ["FuncsTak.lean", "FuncsMove.lean", "FuncsAI.lean", "FuncsSearch.lean", "FuncsMoveIter.lean", "FuncsZw.lean", "FuncsSort.lean"]
 _GEN = {
     "C01": (_ALL_APPLY, ["FNTAK", "FNPOS", "FNAPPLY"]),
     "C02": (_UPTO_EVAL + ["FuncsPos.lean", "FuncsRoad.lean"], ["FNTAK", "FNOVER", "FNROAD"]),
     "C03": (_ALL_APPLY, ["FNMOVEGEN", "FNAPPLY"]),
-    "C05": (_SEARCH, ["FNMOVE", "FNAI", "FNSEARCH", "FNITER", "FNZW"]),
-    "C04": (_SEARCH, ["FNSEARCH", "FNITER", "FNZW"]),
-    "C16": (_SEARCH, ["FNSEARCH", "FNITER", "FNZW"]),
+    "C05": (_SEARCH, ["FNMOVE", "FNAI", "FNSEARCH", "FNITER", "FNZW", "FNSORT"]),
+    "C04": (_SEARCH, ["FNSEARCH", "FNITER", "FNZW", "FNSORT"]),
+    "C16": (_SEARCH, ["FNSEARCH", "FNITER", "FNZW", "FNSORT"]),
     "C14": (_UPTO_EVAL + ["FuncsPos.lean", "FuncsRoad.lean", "FuncsMoveGen.lean", "FuncsSymMove.lean"], ["FNMOVE", "FNSYM", "FNXFORM"]),
     "C06": (_UPTO_EVAL + ["FuncsPos.lean", "FuncsRoad.lean", "FuncsMoveGen.lean", "FuncsSymMove.lean", "FuncsProve.lean"], ["FNPROVE"]),
     "C15": (["FuncsTak.lean", "FuncsMove.lean", "FuncsSym.lean"], ["FNSYM"]),
